@@ -1,7 +1,194 @@
-/- C02: model not built yet (stub so that the per-property driver links). -/
-import DastardV.Proto
-namespace DastardV.C02
+/-
+C02 — "no pulse lost or invented": the oracle is an INDEPENDENT scan of the ground-truth
+stream (the concatenation of the blocks the harness fed) for criterion-satisfying samples,
+compared with the trigger frames of the records the implementation emitted.  It knows
+nothing about blocks, retained history or hold-off bookkeeping: only stream positions,
+configuration epochs and the emitted trigger positions.
 
-def runLine (_ts : List String) : Verdict := .bad "C02: model not built yet"
+Reading of the statement (DESIGN.md §5 C02):
+* epoch = the stretch between (re)configurations of a channel: start of the source (restored
+  or default settings), every accepted ConfigureTriggers naming the channel, every
+  ConfigurePulseLengths that changes the lengths;
+* a sample at stream position `p` is *eligible* in an epoch `[e, e')` when it has `npre`
+  samples of history inside the epoch (`e + npre ≤ p`) and `nsamp − npre` samples after it
+  had arrived, plus one (`p + (nsamp − npre) < e'`, the code's strict loop bound);
+* dead time after a trigger `T` is `(T, T + nsamp]`;
+* (history) ConfigureTriggers used to reset the hold-off reference to ABSOLUTE frame 0, i.e. a
+  pseudo trigger at frame 0 that silenced samples with absolute frame < nsamp; repaired in /repo
+  (`fix: ConfigureTrigger forgets the last trigger…`).  The oracle makes no allowance for it: a
+  miss that only that rule would excuse is reported as `C02:frame0-pseudo-trigger`.
+-/
+import DastardV.Model.PipeJudge
+namespace DastardV.C02
+open Trig Pipe
+
+structure Epoch where
+  start : Nat            -- stream position where the epoch begins
+  ts : TS
+  npre : Int
+  nsamp : Int
+  fromT : Bool           -- started by ConfigureTriggers (hold-off reference := frame 0)
+  inherit : Bool         -- started by ConfigurePulseLengths: LastTrigger is kept
+deriving Repr
+
+structure ChanTruth where
+  g : Array Nat := #[]
+  signed : Bool := false
+  epochs : List Epoch            -- newest first
+  trigs : List (Nat × Nat) := [] -- (position, index of the epoch it was emitted in), oldest first
+deriving Repr
+
+structure St where
+  chans : List ChanTruth
+  f0 : Option Int := none        -- absolute frame of stream position 0
+  npre : Int
+  nsamp : Int
+deriving Repr
+
+def gget (g : Array Nat) (p : Int) : Nat := if p < 0 then 0 else g.getD p.toNat 0
+
+/-- the criteria, on the ground-truth stream -/
+def edgeAt (ts : TS) (signed : Bool) (g : Array Nat) (p : Nat) : Bool :=
+  ts.edge && p ≥ 3 && p < g.size &&
+  edgeCrit { npre := 0, nsamp := 0, ts := ts, signed := signed } (gget g p) (gget g (p - 1)) (gget g (p - 2)) (gget g (p - 3))
+
+def levelAt (ts : TS) (signed : Bool) (g : Array Nat) (p : Nat) : Bool :=
+  ts.level && p ≥ 1 && p < g.size &&
+  levelCrit { npre := 0, nsamp := 0, ts := ts, signed := signed } (gget g p) (gget g (p - 1))
+
+def spanAt (g : Array Nat) (a n : Nat) : Nat :=
+  let xs := (List.range n).map fun k => g.getD (a + k) 0
+  match xs with
+  | [] => 0
+  | x :: r => r.foldl max x - r.foldl min x
+
+/-- evaluate every clause for one channel; `endPos` = samples delivered at the end of the case.
+`strictFrame0 = true` ignores the frame-0 pseudo trigger (full-strength statement). -/
+def evalChan (ch : Nat) (c : ChanTruth) (f0 : Int) (strictFrame0 : Bool) : Option String :=
+  let eps := c.epochs.reverse                 -- oldest first
+  let endPos := c.g.size
+  let n := eps.length
+  firstSome (List.range n) fun k =>
+    match eps[k]? with
+    | none => none
+    | some ep =>
+      let e' : Nat := match eps[k + 1]? with | some nx => nx.start | none => endPos
+      let eI : Int := Int.ofNat e'
+      let post : Int := ep.nsamp - ep.npre
+      let mine := (c.trigs.filter (·.2 == k)).map (·.1)
+      -- triggers whose dead time counts in this epoch
+      let hold : List Nat := if ep.inherit then (c.trigs.filter (·.2 ≤ k)).map (·.1) else mine
+      let covered (p : Nat) : Bool := hold.any fun t => t < p ∧ (p : Int) ≤ t + ep.nsamp
+      let near (p : Nat) : Bool := hold.any fun t => (t : Int) - ep.nsamp ≤ p ∧ (p : Int) ≤ t + ep.nsamp
+      let eligible (p : Nat) : Bool :=
+        (ep.start : Int) + ep.npre ≤ p ∧ (p : Int) + post < eI ∧
+        (strictFrame0 || !ep.fromT || f0 + p ≥ ep.nsamp)
+      -- (a) soundness of every trigger emitted in this epoch
+      let unsound := mine.find? fun p =>
+        !(edgeAt ep.ts c.signed c.g p || levelAt ep.ts c.signed c.g p || ep.ts.auto)
+      match unsound with
+      | some p => some s!"unsound ch{ch} epoch {k}: trigger at stream position {p} (frame {f0 + p}) satisfies no enabled criterion"
+      | none =>
+      let positions := (List.range (e' - ep.start)).map (· + ep.start)
+      -- (b) edge completeness
+      let missE := positions.find? fun p => edgeAt ep.ts c.signed c.g p && eligible p && !(mine.contains p) && !covered p
+      match missE with
+      | some p => some s!"edge-missed ch{ch} epoch {k} (start {ep.start}, npre {ep.npre} nsamp {ep.nsamp}): sample at stream position {p} (frame {f0 + p}) satisfies the edge criterion, is no trigger and in no dead time; triggers {mine}"
+      | none =>
+      -- (c) level completeness
+      let missL := positions.find? fun p => levelAt ep.ts c.signed c.g p && eligible p && !(mine.contains p) && !near p
+      match missL with
+      | some p => some s!"level-missed ch{ch} epoch {k} (start {ep.start}, npre {ep.npre} nsamp {ep.nsamp}): sample at stream position {p} (frame {f0 + p}) satisfies the level criterion and is not within one record of a trigger; triggers {mine}"
+      | none =>
+      -- (d) edge-only: no overlapping records within the epoch
+      let rec overlap : List Nat → Option (Nat × Nat)
+        | a :: b :: r => if (b : Int) - a < ep.nsamp then some (a, b) else overlap (b :: r)
+        | _ => none
+      match (if ep.ts.edge && !ep.ts.level && !ep.ts.auto then overlap mine else none) with
+      | some (a, b) => some s!"edge-overlap ch{ch} epoch {k}: edge-only triggers at positions {a} and {b} overlap (nsamp {ep.nsamp})"
+      | none =>
+      -- (e) auto, no veto: gaps
+      if ep.ts.auto && ep.ts.autoVeto == 0 then
+        let delay : Int := if ep.ts.autoDelay < ep.nsamp then ep.nsamp else ep.ts.autoDelay
+        let bound : Int := delay + ep.nsamp
+        let rec gaps : List Nat → Option (Nat × Nat)
+          | a :: b :: r => if (b : Int) - a > bound then some (a, b) else gaps (b :: r)
+          | _ => none
+        match gaps mine with
+        | some (a, b) => some s!"auto-gap ch{ch} epoch {k}: successive triggers at {a} and {b} are more than delay+record = {bound} apart"
+        | none =>
+          let refFrame0 : Int := if ep.fromT && !strictFrame0 then (if -f0 > ep.start then -f0 else ep.start) else ep.start
+          match mine.head?, mine.getLast? with
+          | none, _ =>
+            if refFrame0 + ep.npre + bound + post < eI then
+              some s!"auto-gap ch{ch} epoch {k} (start {ep.start}): no trigger at all although {e' - ep.start} samples arrived (bound {bound})"
+            else none
+          | some t1, some tl =>
+            if (t1 : Int) > refFrame0 + ep.npre + bound then
+              some s!"auto-gap ch{ch} epoch {k} (start {ep.start}): first trigger only at {t1} (bound {bound})"
+            else if (tl : Int) + bound + post < eI then
+              some s!"auto-gap ch{ch} epoch {k}: no trigger after {tl} although the stream continued to {e'} (bound {bound})"
+            else none
+          | _, _ => none
+      else none
+
+/-- walk the ops with the implementation's outputs, building the ground truth -/
+def walk (st : St) : List Op → List Out → St
+  | [], _ => st
+  | _, [] => st
+  | op :: ops, out :: outs =>
+    match op, out with
+    | .block first _ _ signed data, .recs rs =>
+      let f0 := st.f0.getD first
+      let chans := st.chans.zipIdx.map fun (c, ch) =>
+        let d := data[ch]?.getD []
+        let ek := c.epochs.length - 1
+        let newT := (rs[ch]?.getD []).filterMap fun r =>
+          let p := r.frame - f0
+          if p < 0 then none else some (p.toNat, ek)
+        { c with g := c.g ++ d.toArray, signed := signed[ch]?.getD false, trigs := c.trigs ++ newT }
+      walk { st with chans, f0 := some f0 } ops outs
+    | .trig r, .err false =>
+      let chans := st.chans.zipIdx.map fun (c, ch) =>
+        if r.chans.contains (ch : Int) then
+          { c with epochs := { start := c.g.size, ts := r.ts, npre := st.npre, nsamp := st.nsamp, fromT := true, inherit := false } :: c.epochs }
+        else c
+      walk { st with chans } ops outs
+    | .len ns np, .err false =>
+      if ns ≤ 0 ∨ np ≤ 0 ∨ (ns = st.nsamp ∧ np = st.npre) then walk st ops outs else
+      let chans := st.chans.map fun c =>
+        let ts := match c.epochs.head? with | some e => e.ts | none => {}
+        { c with epochs := { start := c.g.size, ts := ts, npre := np, nsamp := ns, fromT := false, inherit := true } :: c.epochs }
+      walk { st with chans, npre := np, nsamp := ns } ops outs
+    | _, _ => walk st ops outs
+
+def initSt (c : Case) : St :=
+  { npre := c.npre, nsamp := c.nsamp,
+    chans := (List.range c.nch).map fun i =>
+      let ts : TS := match c.saved.find? (·.1 == i) with
+        | some (_, ts) => { ts with edgeMulti := false }
+        | none => {}
+      { epochs := [{ start := 0, ts := ts, npre := c.npre, nsamp := c.nsamp, fromT := false, inherit := false }] } }
+
+def chkC02 (c : Case) (outs : List Out) : Option String :=
+  let st := walk (initSt c) c.ops outs
+  let f0 := st.f0.getD 0
+  match firstSome st.chans.zipIdx fun (ct, ch) => evalChan ch ct f0 false with
+  | some e => some e
+  | none =>
+    -- full-strength statement: without the frame-0 excuse
+    match firstSome st.chans.zipIdx fun (ct, ch) => evalChan ch ct f0 true with
+    | some e => some ("frame0-pseudo-trigger " ++ e)
+    | none => none
+
+def runLine (ts : List String) : Verdict :=
+  match P.run parseCase ts with
+  | .error e => .bad e
+  | .ok c =>
+    -- C02 is about edge / level / auto triggering only
+    judgeWith "C02" c fun c outs =>
+      match chkC01 (initTruth c) c.ops outs with
+      | some e => some ("record-not-exact " ++ e)
+      | none => chkC02 c outs
 
 end DastardV.C02
